@@ -3154,6 +3154,7 @@ status_t MessageField :: TemplatedUnflatten(Message & unflattenTo, const String 
             MessageRef subMsg = GetMessageFromPool();
             MRETURN_ON_ERROR(subMsg);
 
+            if (itemSize > calcSizeUnflat.GetNumBytesAvailable()) return B_BAD_DATA;  // the sub-Message can't be larger than the bytes we have left
             DataUnflattener tempUnflat(calcSizeUnflat.GetCurrentReadPointer(), itemSize);
             MRETURN_ON_ERROR(subMsg()->TemplatedUnflatten(*static_cast<const Message *>(GetItemAtAsRefCountableRef(i)()), tempUnflat));
             MRETURN_ON_ERROR(calcSizeUnflat.SeekRelative(itemSize));
